@@ -148,6 +148,119 @@ func cmdMain(args []string) {
 	fmt.Printf("main: %s -> %s (package %s, func VerifMain)\n", *in, *out, *pkg)
 }
 
+// cmdYield inserts scheduler yield points: at every function entry (declarations and literals)
+// and before every statement that mentions a package-level variable of its own package.
+func cmdYield(args []string) {
+	fs := flag.NewFlagSet("yield", flag.ExitOnError)
+	ctl := fs.String("ctl", "", "import path of the scheduler package")
+	fs.Parse(args)
+	files := goFiles(fs.Args())
+	// package-level variables per directory
+	globals := map[string]map[string]bool{}
+	parsed := map[string]*ast.File{}
+	fsets := map[string]*token.FileSet{}
+	srcs := map[string][]byte{}
+	for _, f := range files {
+		src, err := os.ReadFile(f)
+		if err != nil {
+			die("%v", err)
+		}
+		fset := token.NewFileSet()
+		af, err := parser.ParseFile(fset, f, src, parser.ParseComments)
+		if err != nil {
+			die("%s: %v", f, err)
+		}
+		parsed[f], fsets[f], srcs[f] = af, fset, src
+		dir := filepath.Dir(f)
+		if globals[dir] == nil {
+			globals[dir] = map[string]bool{}
+		}
+		for _, d := range af.Decls {
+			if gd, ok := d.(*ast.GenDecl); ok && gd.Tok == token.VAR {
+				for _, sp := range gd.Specs {
+					for _, n := range sp.(*ast.ValueSpec).Names {
+						if n.Name != "_" {
+							globals[dir][n.Name] = true
+						}
+					}
+				}
+			}
+		}
+	}
+	site := 0
+	total := 0
+	for _, f := range files {
+		af, fset, src := parsed[f], fsets[f], srcs[f]
+		if af.Name.Name == "main" {
+			continue
+		}
+		g := globals[filepath.Dir(f)]
+		var sp []splice
+		off := func(p token.Pos) int { return fset.Position(p).Offset }
+		mentions := func(n ast.Node) bool {
+			found := false
+			ast.Inspect(n, func(x ast.Node) bool {
+				if _, isFn := x.(*ast.FuncLit); isFn {
+					return false // the literal's own body gets its own yields
+				}
+				if id, ok := x.(*ast.Ident); ok && g[id.Name] {
+					found = true
+				}
+				return !found
+			})
+			return found
+		}
+		var doList func(list []ast.Stmt)
+		doList = func(list []ast.Stmt) {
+			for _, st := range list {
+				switch st.(type) {
+				case *ast.DeclStmt, *ast.EmptyStmt:
+					continue
+				}
+				if mentions(st) {
+					site++
+					sp = append(sp, splice{off(st.Pos()), off(st.Pos()), fmt.Sprintf("zzsched.Yield(%d); ", site)})
+				}
+			}
+		}
+		ast.Inspect(af, func(n ast.Node) bool {
+			switch v := n.(type) {
+			case *ast.FuncDecl:
+				if v.Body != nil {
+					site++
+					sp = append(sp, splice{off(v.Body.Lbrace) + 1, off(v.Body.Lbrace) + 1, fmt.Sprintf(" zzsched.Yield(%d);", site)})
+				}
+			case *ast.FuncLit:
+				site++
+				sp = append(sp, splice{off(v.Body.Lbrace) + 1, off(v.Body.Lbrace) + 1, fmt.Sprintf(" zzsched.Yield(%d);", site)})
+			case *ast.BlockStmt:
+				doList(v.List)
+			case *ast.CaseClause:
+				doList(v.Body)
+			case *ast.CommClause:
+				doList(v.Body)
+			case *ast.GoStmt:
+				die("%s: go statement found - goroutines spawned by the code under test are not modelled by the scheduler", fset.Position(v.Pos()))
+			case *ast.SelectStmt:
+				die("%s: select statement found - not modelled by the scheduler", fset.Position(v.Pos()))
+			}
+			return true
+		})
+		if len(sp) == 0 {
+			continue
+		}
+		total += len(sp)
+		src = apply(src, sp)
+		po := fset.Position(af.Name.End()).Offset
+		src = append(src[:po:po], append([]byte("\n\nimport zzsched "+strconv.Quote(*ctl)+"\n"), src[po:]...)...)
+		if err := os.WriteFile(f, src, 0o644); err != nil {
+			die("%v", err)
+		}
+		fmt.Printf("yield %s: %d points\n", f, len(sp))
+	}
+	fmt.Printf("yield points inserted: %d\n", total)
+}
+
 func main() {
 	if len(os.Args) < 2 {
 		die("usage: simrewrite imports|main ...")
@@ -157,6 +270,8 @@ func main() {
 		cmdImports(os.Args[2:])
 	case "main":
 		cmdMain(os.Args[2:])
+	case "yield":
+		cmdYield(os.Args[2:])
 	default:
 		die("unknown command %q", os.Args[1])
 	}
